@@ -57,26 +57,33 @@ CLAIMS = {
              "trusted to respect == on int/float/str/date/tuple/frozenset.",
         tech="Lean 4 proof (iff characterisation, counting argument for edits) + probed hash tables + truth-table "
              "correspondence"),
-    "C03": dict(level=TV, ref="§7 C03",
-        text="A heap model (locations, arrays, dicts, scalars; Python's += in place on arrays, rebinding on scalars; "
-             "fresh allocation for {**a,**b}, dict(a), comprehensions) on which five accumulating helpers "
-             "(_conforming_sum, _conforming_weighted_average, _values_add, _values_diff, _merge_cell_pair) are modelled "
-             "statement by statement, each parameterised by its ACCUMULATOR PATTERN regenerated from /repo's AST on "
-             "every run (how each augmented/subscript assignment target is initialised); round 2 added cells on the heap and 12 more "
-             "helpers (Cell.replace/select/derive_fields/derive_metadata/add_statics, _overwrite_values, _thin_cell, "
-             "_convert_cell_currency, summarize_cell_values, the policy-year accumulation loop, blend_cells, "
-             "_weight_cell_values). 34 kernel-checked theorems: "
-             "frame_<fn> (every location reachable from the arguments is unchanged after the call, also when it "
-             "raises), pattern_<fn>.targetsFresh = true by decide for the regenerated patterns, all_patterns_fresh over "
-             "25 anchor functions, frame_chain (position in a chain), and a negative control (total := values[0] "
-             "violates the frame). The statement for the remaining helpers and ~80 public entry points is OPEN; they "
-             "are covered by the correspondence: a registry of 82 public operations x argument shapes x chain "
-             "positions, deep fingerprints (class, dates, metadata incl. dict order, key order, value type, dtype, "
-             "shape, raw bytes) of every argument before and after each call whether it returned or raised, and a "
-             "second run with every argument array read-only.",
-        note=COMMON_NOTE + "Aliasing inside numpy/pandas/altair is not modelled; the theorem covers the five modelled "
-             "helpers, the entry points are covered by fingerprints only (hence translation_validation).",
-        tech="Lean 4 frame theorems on a heap model + AST-regenerated accumulator patterns + fingerprint correspondence"),
+    "C03": dict(level=TV, ref="§7 C03, §12.6",
+        text="Two layers, 55 kernel-checked theorems (+9 in generated files), one narrowed statement open. "
+             "(1) HeapIR: a small imperative IR for the heap effects of a Python function body (alloc / bind / load / store / "
+             "augmented assignment in place on containers / mutating method calls / calls through computed summaries / loops and "
+             "branches driven by an oracle), an executable total semantics on the heap model, and a decidable static discipline "
+             "writesOnlyFresh (abstract interpretation: every store, in-place update or mutating call targets an object allocated in "
+             "this call). frame_of_discipline proves ONCE that a disciplined function leaves every location allocated before the "
+             "call unchanged - for all heaps, arguments, oracle choices, call depths, whether it returns or raises - and "
+             "frame_chain_ir lifts it to every position in a chain. harness/translate_c03ir.py translates the AST of ALL of "
+             "bermuda/**/*.py to this IR on every run (464 functions today, none untranslated) and Lean re-proves "
+             "all_disciplined by decide +kernel over the regenerated program (451 disciplined; 161 of the 167 operations of the "
+             "harness registry are covered by frame_translated_functions). 14 negative controls (total = values[0]; total += v / "
+             "values = cell.values; values[k] = v / .update on a parameter dict / mutated default list / .sort() on cells) are "
+             "rejected by the discipline and shown to mutate concretely. (2) the earlier hand-written heap models of 17 accumulating "
+             "helpers with AST-regenerated accumulator patterns (frame_<fn>, all_patterns_fresh). OPEN: the six registry entry points "
+             "outside the discipline (wide data-frame/CSV readers: _check_index_columns converts date columns of the DATA FRAME in "
+             "place; long_data_frame_to_triangle and three helpers summarised as pure after review; mutators by contract). All entry "
+             "points are in addition covered by the correspondence: a registry of 167 public operations x argument shapes x chain "
+             "positions, deep fingerprints (class, dates, metadata incl. dict order, key order, value type, dtype, shape, raw bytes) of "
+             "every argument before and after each call whether it returned or raised, and a second run with every argument array "
+             "read-only; a discipline failure triggers the fingerprint search for a concrete mutated argument.",
+        note=COMMON_NOTE + "The theorem is about the IR program: that the IR over-approximates the Python function is the "
+             "translator's obligation (trusted, listed in full in the evidence: desugaring, the summary tables for numpy/pandas/"
+             "toolz/stdlib calls, callbacks assumed pure, parameters annotated with immutable types treated as immutable, dict keys "
+             "not tracked, four functions summarised as pure after review). Aliasing inside numpy/pandas/altair is not modelled. "
+             "Hence translation_validation, not proof.",
+        tech="Lean 4 soundness theorem for a write discipline on an imperative IR + AST-to-IR translator re-run each check + decide over the regenerated program + fingerprint correspondence"),
     "C04": dict(level=PV, ref="§7 C04",
         text="Kernel-checked theorems about the model of to_incremental / to_cumulative: toCum_toInc (exact round trip "
              "for every well-formed cumulative triangle: order, dates, metadata, key order, values and value kinds; "
